@@ -74,11 +74,15 @@ def lift_ruler(model, prefix="self"):
     if n > 30:
         return None
     names = _arr(model, f"{prefix}.__rules__.name", n)
+    alts = _arr(model, f"{prefix}.__rules__.alt", n)
+    mem = model["funcs"].get("Mem", {})
     en = model["arrays"].get(f"{prefix}.__rules__.enabled", {})
     r = Ruler()
     for i in range(n):
         e = en.get(str(i), en.get(i, True))
-        r.__rules__.append(Rule(f"n{names[i]}", bool(e), (lambda *a, _i=i: _i), []))
+        members = mem.get(str(alts[i]), mem.get(alts[i], []))
+        alt = [("" if c == 0 else f"n{c}") for c in members]
+        r.__rules__.append(Rule(f"n{names[i]}", bool(e), (lambda *a, _i=i: _i), alt))
     isnone = _const(model, f"isnone({prefix}.__cache__)", True)
     if not isnone:
         r.getRules("")  # a valid compiled cache (RI holds on entry)
@@ -155,11 +159,12 @@ def replay_obligation(ob, contracts_mod: str):
                 elif p == "options":
                     args[p] = None
                 elif "atom" in ty:
-                    args[p] = _name(_const(model, p, 0))
+                    v = _const(model, p, 0)
+                    args[p] = "" if (p == "chainName" and v == 0) else _name(v)
                 else:
                     args[p] = _const(model, p, 0)
             fn = lambda **kw: meth(**kw)  # noqa: E731
-            info["lifted"] = {"constructor": "Ruler() + Rule records from the model", "arguments": {"rules": [(x.name, x.enabled) for x in r.__rules__], "cache_is_none": r.__cache__ is None,
+            info["lifted"] = {"constructor": "Ruler() + Rule records from the model", "arguments": {"rules": [(x.name, x.enabled, list(x.alt)) for x in r.__rules__], "cache_is_none": r.__cache__ is None,
                                                                                                    **{k: (v if not callable(v) else "<fn>") for k, v in args.items() if k != "self"}}}
         else:
             return info
